@@ -91,6 +91,32 @@ def generate(g, tier):
         lines = sorted({rd.line_of[id(x)] for x in it.executed})
         opts = None if g.chance(0.8) else dict(include_comments=True)
         cases.append(dict(op='compile', opts=opts, src=dict(text=text), meta=dict(family='unknown', exp=list(exp[:4]), unknown_lines=lines)))
+    # several leading `$`: only one is the evaluation prefix — `$$WORD` is the unknown word `$WORD`, evaluated, emitted with its
+    # `$`, and warned about (known command names included)
+    for _ in range(count(tier, 60, 600)):
+        w = r.choice([unknown_word(g, known, blockkw), 'string', 'STRING', 'hold', 'DELAY', 'gui', 'STRINGLN'])
+        pre = r.choice(['$$', '$$', '$$$'])
+        e, v = r.choice([('1+1', '2'), ('"a"+"b"', 'ab'), ('n+1', '4'), ('"x"', 'x')])
+        line = f'{pre}{w} {e}'
+        expw = (pre[1:] + w).upper()
+        body = r.choice([f'VAR n 3\n{line}', f'VAR n 3\nREPEAT 1\n    {line}', f'VAR n 3\nFUNC f\n    {line}\nRUN f'])
+        nline = body.split('\n').index([l for l in body.split('\n') if l.strip() == line][0]) + 1
+        cases.append(dict(op='compile', src=dict(text=body), meta=dict(family='dollars', exp=['ok', [f'{expw} {v}'], [], None], unknown_lines=[nline])))
+    # unknown commands in several files at the same line numbers, entered from the same importing line (a grouped START, a START
+    # in a loop): one warning per file and line, each naming its own file
+    for _ in range(count(tier, 40, 400)):
+        nf = r.randint(2, 4)
+        names = [f'part{k}' for k in range(nf)]
+        files = {}
+        pad = r.randint(0, 2)
+        for k, nm in enumerate(names):
+            files[f'proj/{nm}.txt'] = '\n'.join(['STRING pad'] * pad + [f'{r.choice(DUCKY3)} a{k}', 'STRING tail'])
+        how = r.choice(['group', 'group', 'lines', 'func'])
+        if how == 'group': main = 'START\n' + '\n'.join('    ' + nm for nm in names)
+        elif how == 'lines': main = '\n'.join(f'START {nm}' for nm in names)
+        else: main = 'FUNC ld which\n    IF which == 0\n        START part0\n    ELSE\n        START part1\nREPEAT i,2\n    RUN ld i'; nf = 2
+        files['proj/main.txt'] = main
+        cases.append(dict(op='compile_file', file='proj/main.txt', files=files, meta=dict(family='multi-file', nwarn=nf)))
     # only known commands: no such warning
     cases += [dict(c, meta=dict(c['meta'], unknown_lines=[], family='known-only')) for c in ast_cases(g, count(tier, 150, 1500), W, (5, 16), 4, 'known-only')]
     # IGNORE bodies
@@ -117,6 +143,13 @@ def generate(g, tier):
 
 def oracle(cases, results):
     fs = ast_oracle(cases, results, ('out',), 'unknown')
+    for i, (c, r) in enumerate(zip(cases, results)):
+        m = c.get('meta', {})
+        if 'nwarn' in m and r.get('kind') == 'ok':
+            ws = [w for w in r['warns'] if w['kind'] == 'notExist']
+            files = {tuple(w['trace'][-1][:2]) for w in ws if w.get('trace')}
+            if len(files) != m['nwarn']:
+                fs.append(fail(i, f'{m["nwarn"]} unknown commands in {m["nwarn"]} files ran, the warnings locate {sorted(files)}', 'multi-file:warnings'))
     for i, (c, r) in enumerate(zip(cases, results)):
         m = c.get('meta', {})
         if r.get('kind') != 'ok' or 'unknown_lines' not in m: continue
